@@ -192,6 +192,25 @@ fn derive_seed(seed: u64, id: &str, sub: &str, worker: usize) -> [u8; 32] {
 // ---------------------------------------------------------------------------------------------
 
 /// What the classifier says about one generated case.
+/// Evidence samples are illustrations, not replay files: long arrays and strings are cut so that an evidence file
+/// stays small (a clutter-map case is megabytes otherwise).
+pub fn abbreviate(v: &Value, depth: usize) -> Value {
+    const KEEP: usize = 12;
+    match v {
+        Value::Array(a) => {
+            let keep = if depth >= 4 { 4 } else { KEEP };
+            let mut out: Vec<Value> = a.iter().take(keep).map(|x| abbreviate(x, depth + 1)).collect();
+            if a.len() > keep {
+                out.push(Value::String(format!("... {} more elements", a.len() - keep)));
+            }
+            Value::Array(out)
+        }
+        Value::Object(o) => Value::Object(o.iter().map(|(k, x)| (k.clone(), abbreviate(x, depth + 1))).collect()),
+        Value::String(s) if s.len() > 400 => Value::String(format!("{}... ({} chars)", s.chars().take(400).collect::<String>(), s.len())),
+        other => other.clone(),
+    }
+}
+
 #[derive(Default)]
 pub struct CaseInfo {
     pub nontrivial: bool,
@@ -597,7 +616,12 @@ impl Report {
             let dn = s.nontrivial.len() as u64 + s.enumerated_nontrivial;
             distinct_nontrivial += dn;
             for smp in &s.samples {
-                samples.push(json!({ "sub": name, "case": smp }));
+                let mut short = abbreviate(smp, 0);
+                let text = short.to_string();
+                if text.len() > 20_000 {
+                    short = json!({ "json_prefix": text.chars().take(4000).collect::<String>(), "json_chars": text.len() });
+                }
+                samples.push(json!({ "sub": name, "case": short }));
             }
             if !s.rule.is_empty() {
                 rules.push(format!("[{}] {}", name, s.rule));
